@@ -32,6 +32,7 @@ import (
 	"gorm.io/driver/sqlite"
 	"gorm.io/gorm"
 	"gorm.io/gorm/clause"
+	"gorm.io/gorm/logger"
 )
 
 type c07RaceProg struct {
@@ -65,6 +66,9 @@ type c07RaceOutcome struct {
 	CfgDiff      string        `json:"cfg_diff,omitempty"`
 	TraceDiff    string        `json:"trace_diff,omitempty"`
 	Inconclusive string        `json:"inconclusive,omitempty"`
+	Panic        string        `json:"panic,omitempty"`    // an operation panicked (recovered per goroutine): value + gorm frames
+	Deadlock     string        `json:"deadlock,omitempty"` // the program hung with every gorm goroutine in a completion-channel receive
+	F32          int           `json:"f32,omitempty"`      // results matching the listed finding F32 (see c07FailF32)
 	OpKinds      []string      `json:"op_kinds"`
 	Errs         int           `json:"errs"`
 	Millis       int64         `json:"ms"`
@@ -99,9 +103,9 @@ func (C07Plain2) TableName() string { return "rc_plain2" }
 func (C07Plain3) TableName() string { return "rc_plain3" }
 
 var c07AllModels = []interface{}{&RCompany{}, &RProfile{}, &RPet{}, &RLang{}, &RToy{}, &RUser{}, &C07Plain1{}, &C07Plain2{}, &C07Plain3{},
-	&C07ScA{}, &C07ScB{}, &C07ScH{}, &C07ScN{}, &C07ScO{}, &C07ScS{}, &C07ScC{}, &C07ScD{}, &C07ScE{}, &C07ScQ{}, &C07Zoo{}}
+	&C07ScA{}, &C07ScB{}, &C07ScH{}, &C07ScN{}, &C07ScO{}, &C07ScS{}, &C07ScC{}, &C07ScD{}, &C07ScE{}, &C07ScQ{}, &C07Zoo{}, &C07FailHook{}}
 var c07AllTables = []string{"r_companies", "r_profiles", "r_pets", "r_langs", "r_toys", "r_users", "r_user_langs",
-	"rc_plain1", "rc_plain2", "rc_plain3", "sc_as", "sc_bs", "sc_hs", "sc_ns", "sc_os", "sc_ss", "sc_cs", "sc_ds", "sc_es", "sc_qs", "c07_zoos"}
+	"rc_plain1", "rc_plain2", "rc_plain3", "sc_as", "sc_bs", "sc_hs", "sc_ns", "sc_os", "sc_ss", "sc_cs", "sc_ds", "sc_es", "sc_qs", "c07_zoos", "c07_fail_hooks"}
 
 func c07Dump(sqlDB *sql.DB) map[string][]string {
 	out := map[string][]string{}
@@ -221,6 +225,8 @@ type c07RaceWorker struct {
 	kinds map[string]bool
 	errs  int
 	first bool
+	opIdx   int      // index of the operation being run (family "fail": same kind for all goroutines at one index)
+	failSeq [][2]int // family "fail": (kind, finisher variant) per operation index
 }
 
 func (w *c07RaceWorker) next() uint { w.n++; return w.base + w.n }
@@ -629,13 +635,15 @@ type c07RaceRun struct {
 	kinds   map[string]bool
 	errs    int
 	hung    bool
+	stacks  string   // all goroutine stacks at the moment the watchdog fired
+	panics  []string // operations that panicked (recovered per goroutine)
 	cfg     []string       // fingerprint of the shared handle(s) after the program
 	traces  map[string]int // statement shapes traced to the shared handle's logger
 }
 
 // c07RunRaceProg executes one program, serially (reference) or with G concurrent goroutines, on a fresh database.
 func c07RunRaceProg(p c07RaceProg, serial bool) c07RaceRun {
-	setup, _, sqlDB := OpenRec(&gorm.Config{NowFunc: fixedNowFunc})
+	setup, rec, sqlDB := OpenRec(&gorm.Config{NowFunc: fixedNowFunc})
 	defer sqlDB.Close()
 	conns := p.Conns
 	if conns <= 0 {
@@ -644,7 +652,7 @@ func c07RunRaceProg(p c07RaceProg, serial bool) c07RaceRun {
 			conns = 4
 		}
 	}
-	nohold := c07ProgPrepOn(p) && !(p.Family == "zoo" && conns >= p.G)
+	nohold := (c07ProgPrepOn(p) && !(p.Family == "zoo" && conns >= p.G)) || p.Family == "fail"
 	sqlDB.SetMaxOpenConns(conns)
 	if err := setup.AutoMigrate(c07AllModels...); err != nil {
 		panic(err)
@@ -653,6 +661,11 @@ func c07RunRaceProg(p c07RaceProg, serial bool) c07RaceRun {
 		for g := 0; g < p.G; g++ {
 			c07ZooSeed(setup, g)
 		}
+	}
+	var failSeq [][2]int
+	if p.Family == "fail" {
+		defer c07FailPrepare(p, setup, rec, sqlDB)()
+		failSeq = c07FailSeq(p, conns > 1)
 	}
 	if p.Family == "readers" {
 		for g := 0; g < p.G; g++ {
@@ -705,6 +718,8 @@ func c07RunRaceProg(p c07RaceProg, serial bool) c07RaceRun {
 			return w.opReader(h)
 		case "zoo":
 			return w.opZoo(h)
+		case "fail":
+			return w.opFail(h)
 		default:
 			return w.opPlain(h)
 		}
@@ -718,7 +733,7 @@ func c07RunRaceProg(p c07RaceProg, serial bool) c07RaceRun {
 	}
 	if !p.Cold {
 		// warm: every operation kind, serially, on a reserved id block, before the goroutines start
-		w := &c07RaceWorker{g: 90, base: 900000, rng: rand.New(rand.NewSource(p.Seed + 5)), kinds: map[string]bool{}, ro: conns > 1, only: p.Only, nohold: nohold, hmodel: p.Handle == "model" && conns > 1}
+		w := &c07RaceWorker{g: 90, base: 900000, rng: rand.New(rand.NewSource(p.Seed + 5)), kinds: map[string]bool{}, ro: conns > 1, only: p.Only, nohold: nohold, hmodel: p.Handle == "model" && conns > 1, failSeq: failSeq}
 		if p.Family == "zoo" {
 			c07ZooSeed(setup, 89)
 		}
@@ -728,7 +743,8 @@ func c07RunRaceProg(p c07RaceProg, serial bool) c07RaceRun {
 			_ = st.Parse(m)
 		}
 		for i := 0; i < 40; i++ {
-			op(w, hw)
+			w.opIdx = p.Ops + i // family "fail": texts of their own, the program's texts stay unprepared
+			c07Guard(func() string { return op(w, hw) })
 		}
 	}
 	// ONE shared handle per operation index (all goroutines use handles[i] for their i-th operation), derived before the
@@ -746,7 +762,7 @@ func c07RunRaceProg(p c07RaceProg, serial bool) c07RaceRun {
 	workers := make([]*c07RaceWorker, p.G)
 	outs := make([][]string, p.G)
 	for g := 0; g < p.G; g++ {
-		workers[g] = &c07RaceWorker{g: g, base: uint(g+1) * 10000, rng: rand.New(rand.NewSource(p.Seed*131 + int64(g))), kinds: map[string]bool{}, first: true, ro: conns > 1, only: p.Only, nohold: nohold, hmodel: p.Handle == "model" && conns > 1}
+		workers[g] = &c07RaceWorker{g: g, base: uint(g+1) * 10000, rng: rand.New(rand.NewSource(p.Seed*131 + int64(g))), kinds: map[string]bool{}, first: true, ro: conns > 1, only: p.Only, nohold: nohold, hmodel: p.Handle == "model" && conns > 1, failSeq: failSeq}
 	}
 	ident := c07Identify(shared, handles)
 	// "stampede" (half of the cold programs): every goroutine's very first action is Statement.Parse of every model type of
@@ -759,11 +775,17 @@ func c07RunRaceProg(p c07RaceProg, serial bool) c07RaceRun {
 		fam = []interface{}{&RUser{}, &RPet{}, &RCompany{}, &RProfile{}, &RLang{}, &RToy{}}
 	case "zoo":
 		fam = []interface{}{&C07Zoo{}, &C07ZooLite{}}
+	case "fail":
+		fam = []interface{}{&C07Plain1{}, &C07Plain2{}, &C07Plain3{}, &C07FailHook{}}
 	default:
 		fam = []interface{}{&C07Plain1{}, &C07Plain2{}, &C07Plain3{}}
 	}
 	stampede := p.Cold && p.Seed%2 == 0
 	ptrs := make([]map[string]string, p.G)
+	var barrier *c07Barrier
+	if !serial && p.Family == "fail" {
+		barrier = c07NewBarrier(p.G)
+	}
 	body := func(g int) {
 		w := workers[g]
 		if stampede {
@@ -777,7 +799,12 @@ func c07RunRaceProg(p c07RaceProg, serial bool) c07RaceRun {
 			}
 		}
 		for i := 0; i < p.Ops; i++ {
-			s := op(w, handles[i])
+			w.opIdx = i
+			if p.Family == "fail" {
+				barrier.wait() // all goroutines issue the index's (identical) text together
+			}
+			// a panic inside an operation is that operation's result (the serial run has none): recovered per goroutine
+			s := c07Guard(func() string { return op(w, handles[i]) })
 			if strings.Contains(s, " err:") || strings.Contains(s, " locked") {
 				w.errs++
 			}
@@ -785,6 +812,7 @@ func c07RunRaceProg(p c07RaceProg, serial bool) c07RaceRun {
 		}
 	}
 	res := c07RaceRun{kinds: map[string]bool{}}
+	c07TakePanics()
 	c07ZooGate.Store(nil)
 	if !serial && p.Family == "zoo" {
 		need := p.G
@@ -818,9 +846,12 @@ func c07RunRaceProg(p c07RaceProg, serial bool) c07RaceRun {
 		case <-done:
 		case <-time.After(c07HangAfter):
 			res.hung = true
+			res.stacks = c07AllStacks()
+			res.panics = c07TakePanics()
 			return res
 		}
 	}
+	res.panics = c07TakePanics()
 	for _, w := range workers {
 		for k := range w.kinds {
 			res.kinds[k] = true
@@ -995,6 +1026,7 @@ func c07RaceChild(r *Result, rng *rand.Rand, tier string) {
 		r.Note("bad spec")
 		return
 	}
+	logger.Default = logger.Discard // schema.Parse reports relation errors of invalid models through the package-level logger
 	logFile := fmt.Sprintf("%s.%d", spec.Log, os.Getpid())
 	off := 0
 	var outcomes []c07RaceOutcome
@@ -1034,13 +1066,24 @@ func c07RaceChild(r *Result, rng *rand.Rand, tier string) {
 			o.Pairs = append(o.Pairs, c07ParseRaceReports(string(lb[off:]))...)
 			off = len(lb)
 		}
+		// panics the operations have when they run ALONE are their (serial) results, not a concurrency matter: only those the
+		// serial run of the same programs does not have count
+		if extra := c07ExtraPanics(ref.panics, got.panics); len(extra) > 0 {
+			o.Panic = fmt.Sprintf("%d operation(s) panicked that do not panic in the serial run; first: %s", len(extra), extra[0])
+		}
 		if got.hung {
 			o.Inconclusive = fmt.Sprintf("program did not finish within %v", c07HangAfter)
+			if o.Panic == "" {
+				o.Deadlock = c07ClassifyHang(got.stacks)
+			}
 			outcomes = append(outcomes, o)
 			flush()
 			break // goroutines are stuck; this process cannot be trusted further
 		}
 		o.PtrDiff = got.ptrDiff
+		if dump := os.Getenv("C07_DEV_DUMP"); dump != "" && len(got.outs) > 0 { // development aid: goroutine 0's results
+			_ = os.WriteFile(dump, []byte(strings.Join(got.outs[0], "\n")+"\n"), 0o644)
+		}
 		for k := range got.kinds {
 			o.OpKinds = append(o.OpKinds, k)
 		}
@@ -1048,6 +1091,9 @@ func c07RaceChild(r *Result, rng *rand.Rand, tier string) {
 		o.Errs = got.errs
 		if got.errs > 0 && ref.errs == 0 {
 			// errors that only occur concurrently: SQLite locking noise or a gorm defect — decided by the texts below
+		}
+		if p.Family == "fail" && c07ProgPrepOn(p) {
+			o.F32 = c07FailF32(ref.outs, got.outs)
 		}
 		for g := 0; g < p.G && o.Mismatch == ""; g++ {
 			if canon(ref.outs[g]) != canon(got.outs[g]) {
@@ -1194,7 +1240,12 @@ func c07RunRaceChild(progs []c07RaceProg, budget time.Duration) ([]c07RaceOutcom
 	} else if runErr != nil && len(outcomes) < len(progs) {
 		// exit status 66 = races were reported (expected on the unchanged tree); anything else with missing outcomes is a crash
 		tail := string(out)
-		if i := strings.Index(tail, "fatal error:"); i >= 0 {
+		if i := strings.Index(tail, "panic: "); i >= 0 && !strings.Contains(tail, "fatal error:") {
+			tail = tail[i:]
+			if len(tail) > 2500 {
+				tail = tail[:2500]
+			}
+		} else if i := strings.Index(tail, "fatal error:"); i >= 0 {
 			tail = tail[i:]
 			if len(tail) > 1500 {
 				tail = tail[:1500]
@@ -1217,7 +1268,7 @@ func c07GenRaceProg(rng *rand.Rand) c07RaceProg {
 	if c07Thorough {
 		gs = []int{2, 4, 8, 16, 32}
 	}
-	fams := []string{"related", "mutual", "mutual", "mutual", "unrelated", "readers", "zoo", "zoo", "zoo", "zoo"}
+	fams := []string{"related", "mutual", "mutual", "mutual", "unrelated", "readers", "zoo", "zoo", "zoo", "zoo", "fail", "fail", "fail"}
 	p := c07RaceProg{Seed: rng.Int63n(1 << 40), G: gs[rng.Intn(len(gs))], Cold: rng.Intn(2) == 0, Family: fams[rng.Intn(len(fams))],
 		Prepare: rng.Intn(3) == 0, Ops: 4 + rng.Intn(8)}
 	switch p.Family {
@@ -1229,6 +1280,13 @@ func c07GenRaceProg(rng *rand.Rand) c07RaceProg {
 		// read-only on several connections: scans really overlap.  A handle that carries Model(&obj) shares the caller's OBJECT
 		// between the goroutines (gorm writes keys / timestamps back into it): only used by read-only programs
 		if rng.Intn(2) == 0 || p.Handle == "model" {
+			p.Conns = []int{2, 4, 8}[rng.Intn(3)]
+		}
+	case "fail":
+		p.Handle = []string{"db", "db", "session", "ctx", "prepsession", "prepsession", "debug"}[rng.Intn(7)]
+		p.Prepare = rng.Intn(2) == 0
+		p.Ops = 12 + rng.Intn(20)
+		if rng.Intn(3) == 0 { // several connections: only operations that cannot write
 			p.Conns = []int{2, 4, 8}[rng.Intn(3)]
 		}
 	default:
@@ -1250,7 +1308,7 @@ func c07GenRaceProg(rng *rand.Rand) c07RaceProg {
 	default:
 		p.Derive = c07DeriveModes[1+rng.Intn(len(c07DeriveModes)-1)]
 	}
-	if p.G >= 8 {
+	if p.G >= 8 && p.Family != "fail" {
 		p.Ops = 3 + rng.Intn(4)
 	}
 	if p.Family == "zoo" && c07ProgPrepOn(p) && c07HoldModes[p.Derive] {
@@ -1287,6 +1345,31 @@ func c07JudgeRaceOutcomes(r *Result, outcomes []c07RaceOutcome, probe string) {
 			r.Violate(Violation{Kind: "correspondence", Suite: "race-single-winner", Input: p, Observed: o.PtrDiff,
 				Expected: "every goroutine receives the same *schema.Schema for one model type (Gorm.C07_cache_single_winner)",
 				Note:     "schema-cache protocol: two schema objects for one model type were handed to callers"})
+		}
+		if o.F32 > 0 {
+			r.H("race.result", "known-F32")
+			what := "under concurrent driver.ErrBadConn on one cached statement a goroutine gets \"sql: statement is closed\" (another goroutine's eviction closed the statement it holds) instead of its own \"driver: bad connection\""
+			if listed("F32-C07-badconn-eviction-closes-held-statement") {
+				r.KnownFinding("F32-C07-badconn-eviction-closes-held-statement", what)
+			} else {
+				r.Violate(Violation{Kind: "e2e", Suite: "race", Input: p, Observed: fmt.Sprintf("%d operation(s): %s", o.F32, what), Expected: "results equal the serial run of the same programs"})
+			}
+		} else if p.Family == "fail" && p.Only == "fault-badconn" {
+			r.Note("probe F32 (ErrBadConn eviction closes a held statement): did not reproduce in this run (scheduling dependent)")
+		}
+		if o.Panic != "" {
+			r.H("race.result", "panic")
+			r.Violate(Violation{Kind: "e2e", Suite: "race", Input: p, Observed: o.Panic,
+				Expected: "every operation returns (a result or an error) as it does when the same programs run one goroutine after the other",
+				Note:     "an operation issued through the shared handle panicked under concurrency; the serial run of the same programs does not"})
+			continue
+		}
+		if o.Deadlock != "" {
+			r.H("race.result", "deadlock")
+			r.Violate(Violation{Kind: "e2e", Suite: "race", Input: p, Observed: o.Deadlock,
+				Expected: "every operation returns; the serial run of the same programs finishes",
+				Note:     "deadlock: goroutines wait for a completion signal (statement cache / schema cache) that nobody is left to give"})
+			continue
 		}
 		if o.Inconclusive != "" {
 			r.H("race.result", "inconclusive")
@@ -1360,6 +1443,13 @@ func c07JudgeChildEnd(r *Result, progs []c07RaceProg, outs []c07RaceOutcome, not
 		r.H("race.result", "runtime-fatal-concurrent-map")
 		r.Violate(Violation{Kind: "e2e", Suite: "race", Input: progs[len(outs)], Observed: note, Expected: "no concurrent map access",
 			Note: "the race-instrumented process died with the Go runtime's concurrent-map fatal error while running this program"})
+		return
+	}
+	if strings.Contains(note, "panic: ") && strings.Contains(note, "gorm.io/gorm") && len(outs) < len(progs) {
+		// a panic outside the goroutines' own operations (a goroutine gorm itself started) kills the process
+		r.H("race.result", "process-panic")
+		r.Violate(Violation{Kind: "e2e", Suite: "race", Input: progs[len(outs)], Observed: note, Expected: "no panic",
+			Note: "the race-instrumented process died with a panic carrying gorm frames while running this program"})
 		return
 	}
 	r.Note("shard: %s (%d of %d programs judged)", note, len(outs), len(progs))
@@ -1449,6 +1539,7 @@ func c07RaceParent(r *Result, rng *rand.Rand, tier string) {
 		c07RaceProg{Seed: rng.Int63n(1 << 30), G: 8, Cold: rng.Intn(2) == 0, Family: "zoo", Handle: "model", Ops: 8, Conns: 8, Only: "30,30,30,9,10,5"},
 		c07RaceProg{Seed: rng.Int63n(1 << 30), G: 8, Cold: false, Family: "zoo", Handle: "model", Ops: 6, Conns: 8, Only: "30"},
 	)
+	progs = append(progs, c07FailFixedProgs(rng)...)
 	if dev := os.Getenv("C07_DEV_PROGS"); dev != "" { // development aid: run exactly these programs
 		progs = nil
 		if err := json.Unmarshal([]byte(dev), &progs); err != nil {
